@@ -13,6 +13,10 @@ CONSTANTS
   AsyncApply = FALSE
   MaxPerRequest = 99
   RecursiveRLock = FALSE
+  Kinds = {"Unavailable"}
+  CanceledStops = FALSE
+  StartUnreachable = FALSE
+  DialOnce = FALSE
 INVARIANTS TypeOK InSync InSyncUnlessAmbiguous SetTracksDeps NoDeadlock
 PROPERTIES Converges CallerReturns KeepsRetrying
 CHECK_DEADLOCK FALSE
